@@ -146,7 +146,9 @@ func ResolvedPromptly(t *Truth) *Report {
 				if 2*n.GroupInterval > keep {
 					keep = 2 * n.GroupInterval
 				}
-				if lim := prev.End.Add(keep - window); lim.Before(horizon) {
+				// (the whole window must end before the entry expires: the loop below only accepts a window
+				// that lies inside [te, horizon])
+				if lim := prev.End.Add(keep); lim.Before(horizon) {
 					horizon = lim
 				}
 				var deadline time.Time
